@@ -4,7 +4,7 @@
 (* level fidelity statement.  One trace per document:                      *)
 (*   [id, order, raw : name -> node, cfg, doc : [order, edges],            *)
 (*    real : [ev : Seq([k, n, o]), keys : Seq(name),                       *)
-(*            fields : name -> Seq(key), err]]                             *)
+(*            fields : name -> Seq(key), foreign : Seq(name), err]]        *)
 (* The model is run on the same abstract document (SchemaParse!Build) and  *)
 (* its call sequence, registry and per-schema field sets are compared with *)
 (* what the real parser did.  Disagreement is DRIFT (the model must be     *)
@@ -42,6 +42,8 @@ Report(t) ==
   IN [id |-> t.id, terminated |-> Terminated(x), atrest |-> AtRestAfter(x), nev |-> Len(x.ev),
       evdiff |-> fd, fielddiff |-> SetToSeq(fieldDiff), keydiff |-> SetToSeq(keyDiff),
       designLost |-> SetToSeq(designLost),
+      designForeign |-> SetToSeq(x.foreign),
+      foreigndiff |-> SetToSeq((x.foreign \ ToSet(t.real.foreign)) \cup (ToSet(t.real.foreign) \ x.foreign)),
       modelAround |-> IF fd = 0 THEN <<>> ELSE SubSeq(x.ev, IF fd > 3 THEN fd - 3 ELSE 1, IF fd + 2 <= Len(x.ev) THEN fd + 2 ELSE Len(x.ev)),
       realAround |-> IF fd = 0 THEN <<>> ELSE SubSeq(t.real.ev, IF fd > 3 THEN fd - 3 ELSE 1, IF fd + 2 <= Len(t.real.ev) THEN fd + 2 ELSE Len(t.real.ev))]
 
